@@ -44,33 +44,6 @@ theorem stKey_mem_clearStatus {ss : ExtTreeSet Nat} {k k' b' : Nat} (hb' : b' < 
 
 /-! ## 2. every atomic step preserves the invariant -/
 
-/-- every atomic step (single command or one `MULTI…EXEC`) any repository can issue, with arbitrary arguments -/
-inductive AStep where
-  | save (svr : Server) (now : Int)
-  | remove (k : Nat)
-  | insAdd (id : Nat) (a : Addr) (now : Int)
-  | insRemove (id : Nat)
-  | insClear (ids : List Nat)
-  | enqueue (id : Nat) (p : Probe) (expires : GoTime) (ready : Int)
-  | pop (ids : List Nat)
-  | lockSetNX (k tok : Nat)
-  | lockDel (k : Nat)
-  | lockExpire (k : Nat) (dirties : Bool)
-  | touchLock (k : Nat) (w : Option Nat)
-
-def AStep.apply (st : RStore) : AStep → RStore
-  | .save svr now => st.saveBatch svr now
-  | .remove k => st.removeBatch k
-  | .insAdd id a now => st.insAddBatch id a now
-  | .insRemove id => st.insRemoveBatch id
-  | .insClear ids => st.insClearBatch ids
-  | .enqueue id p e r => st.enqueueBatch id p e r
-  | .pop ids => (st.popBatch ids).1
-  | .lockSetNX k tok => (st.lockSetNX k tok).1
-  | .lockDel k => st.lockDel k
-  | .lockExpire k d => st.lockExpire k d
-  | .touchLock k w => st.touchLock k w
-
 /-- **every atomic step preserves `Consistent`** — `save`/`remove` batches of the registry, instance
 add/remove/clear batches, probe enqueue/pop batches, `SET NX EX`, `DEL`, lease expiry (whether or
 not it invalidates watchers), with arbitrary arguments from an arbitrary consistent store -/
@@ -150,17 +123,6 @@ theorem runWriter_consistent {st : RStore} (h : Consistent st) (clock : Int) (w 
     Consistent (runWriter st clock w fresh fuel).1 :=
   Swat4.runWriter_consistent h clock w fresh fuel
 
-/-- one command of some queue / instance call in flight: any call, any pc, any clock, any fresh id -/
-structure QEv where
-  clock : Int
-  fresh : Nat
-  op : QOp
-  pc : QPC
-
-/-- commands of any number of queue / instance calls, interleaved in any order -/
-def runQs (st : RStore) (qs : List QEv) : RStore :=
-  qs.foldl (fun st q => (qstep st q.clock q.fresh q.op q.pc).1) st
-
 theorem runQs_consistent {st : RStore} (h : Consistent st) (qs : List QEv) : Consistent (runQs st qs) := by
   unfold runQs
   induction qs generalizing st with
@@ -171,15 +133,6 @@ theorem runQs_consistent {st : RStore} (h : Consistent st) (qs : List QEv) : Con
 any interleaving of their storage commands, lease expiries, clock ticks — the store is consistent. -/
 theorem C10_main (s : Sys) (es : List Ev) (h : Consistent s.store) : Consistent (s.run es).store :=
   Sys.run_consistent h es
-
-/-- events of the whole storage layer: registry clients' events and queue / instance commands -/
-inductive WEv where
-  | sys (e : Ev)
-  | q (q : QEv)
-
-def worldStep (s : Sys) : WEv → Sys
-  | .sys e => s.step e
-  | .q q => { s with store := (qstep s.store q.clock q.fresh q.op q.pc).1 }
 
 /-- C10 for registry clients and queue / instance calls interleaved arbitrarily on one keyspace -/
 theorem C10_world (s : Sys) (es : List WEv) (h : Consistent s.store) : Consistent (es.foldl worldStep s).store := by
@@ -207,6 +160,18 @@ theorem C10_crash (s : Sys) (h : Consistent s.store) (es es' : List Ev) (_hp : e
 theorem lock_ttl (s : Sys) (h : Consistent s.store) (es : List Ev) (k : Nat) (c : LockCell)
     (hc : (s.run es).store.locks[k]? = some c) : c.ttl = true :=
   (C10_main s es h).ttl k c hc
+
+/-! ## 5. the executable oracle of the driver -/
+
+/-- the driver's oracle `consistentB`, evaluated on the implementation's raw keyspace dump, implies the invariant -/
+theorem consistentB_sound {st : RStore} (h : st.consistentB = true) : Consistent st :=
+  RStore.consistentB_sound h
+
+/-- the oracle is exactly the invariant plus "no status-set member with a bit index outside 0..8"
+(`Consistent` leaves such junk members unconstrained; the oracle rejects them) -/
+theorem consistentB_iff {st : RStore} :
+    st.consistentB = true ↔ Consistent st ∧ ∀ e : Nat, e ∈ st.statusSet → e % 16 < 9 :=
+  RStore.consistentB_iff
 
 /-! ## 6. non-vacuity -/
 
